@@ -28,6 +28,8 @@ AUTO = ["auto", "auto_assign"] + FUSED
 GLWE_OPS = ["ks", "ks_assign"] + AUTO + ["trace", "trace_assign"]
 PACK = ["pack", "packer"]
 MAT = ["gglwe_ks", "gglwe_ks_assign", "atk_auto", "atk_auto_assign"]
+GGSW = ["ggsw_ks", "ggsw_ks_assign", "ggsw_auto", "ggsw_auto_assign"]
+GGSW_DNUM_KEY = "poulpy-core/src/keyswitching/ggsw.rs:ggsw_keyswitch:res.dnum<a.dnum:loop-over-a.dnum-panics"
 STALE_KEY = "poulpy-core/src/automorphism/glwe_ct.rs:glwe_automorphism_{add,sub,sub_negate}{,_assign}:res_dft-not-zeroed:dsize>=3"
 
 
@@ -156,6 +158,8 @@ def harness_line(cid, c, be, dirty):
     extra = ""
     if c["op"] in PACK:
         extra = f" slots={','.join(str(x) for x in c['slots']) or '-'} lgap={c['lgap']}"
+    if c["op"] in GGSW:
+        extra = f" adnum={c['adnum']} adsize={c['adsize']} rdnum={c['rdnum']}"
     if c["op"] in MAT:
         extra = f" r0={c['r0']} adnum={c['adnum']} adsize={c['adsize']} rdnum={c['rdnum']} pa={c['pa']}"
     return f"{cid} " + " ".join(f"{k}={c[k]}" for k in keys) + extra + f" be={be} dirty={dirty}"
@@ -169,7 +173,7 @@ def model_line(cid, c, ans, big):
     return (f"{cid} ks op={c['op']} big={big} n={c['n']} bin={c['bin']} bkey={c['bkey']} bout={c['bout']} sout={sout_of(c)} "
             f"rin={c['rin']} rout={c['rout']} dsize={c['dsize']} skip={c['skip']} idx={c['idx']} nlin={c['nlin']} nlout={c['nlout']} "
             f"dft0={(cid % 3) * 12345} lgap={c.get('lgap', 0)} r0={c.get('r0', 0)} adsize={c.get('adsize', 0)} rdnum={c.get('rdnum', 0)} "
-            f"keys={ans['keys']} a={ans['a']}")
+            + (f"tsk={ans['tsk']} " if "tsk" in ans else "") + f"keys={ans['keys']} a={ans['a']}")
 
 
 # --------------------------------------------------------------------------- generator
@@ -282,6 +286,41 @@ def generate(ctx, rng):
             c["bout"] = c["bin"]
     cases += generate_pack(ctx, rng)
     cases += generate_mat(ctx, rng)
+    cases += generate_ggsw(ctx, rng)
+    return cases
+
+
+def generate_ggsw(ctx, rng):
+    """GGSW key-switch / automorphism: per-row GLWE form + row expansion with the tensor key"""
+    quick = ctx.tier == "quick"
+    cases = []
+    for k in range(40 if quick else 500):
+        n = [8, 16, 8, 32][k % 4]
+        op = GGSW[k % 4]
+        c = shape(rng, "ks", n, ntt_only=(k % 9 == 8), force={"dsize": [1, 2, 1, 3][(k // 4) % 4]})
+        c["op"] = op
+        c["rin"] = c["rout"] = [1, 2, 3, 2][(k // 2) % 4]
+        adsize = rng.choice([1, 1, 2])
+        adnum = rng.range(1, 3)
+        sa = adnum * adsize + rng.range(1, 2)
+        c["kin"] = sa * c["bin"] - (rng.below(c["bin"] // 2) if c["bin"] > 3 else 0)
+        c["adsize"], c["adnum"] = adsize, adnum
+        c["bout"] = c["bin"]
+        so = sa + rng.range(-1, 1)
+        so = max(so, adnum * adsize, adsize + 1)
+        c["kout"] = so * c["bout"]
+        # res.dnum <= a.dnum is what the entry assertion admits; ggsw_keyswitch needs equality (known finding)
+        c["rdnum"] = adnum if (op != "ggsw_auto" and k % 8 != 4) else max(1, adnum - 1)
+        # key and tensor key cover the result precision
+        a_size = ceil_div(max(sa, so) * c["bin"], c["bkey"])
+        c["dnum"] = max(1, ceil_div(a_size, c["dsize"]) + rng.range(-1, 0))
+        skey = c["dnum"] * c["dsize"] + rng.choice([1, 2])
+        c["kkey"] = skey * c["bkey"]
+        c["p"] = rng.choice([-1, 2 * rng.below(n) + 1, -(2 * rng.below(n) + 1), 5, 25])
+        c["cls"] = rng.choice(["raw", "raw", "alt", "ext", "zero"])
+        if op.endswith("_assign"):
+            c["rdnum"], c["kout"] = adnum, ceil_div(c["kin"], c["bin"]) * c["bin"]
+        cases.append(c)
     return cases
 
 
@@ -360,7 +399,7 @@ def generate_pack(ctx, rng):
             for sub in subsets_of(1 << L):
                 cases.append(pack_shape(rng, "pack", n, [j * gap for j in sub], lgap))
     # random subsets beyond 8 slots, stray (non-slot) indices, NTT-only radices
-    for k in range(16 if quick else 400):
+    for k in range(24 if quick else 400):
         n = [16, 32, 16][k % 3]
         logn = n.bit_length() - 1
         lgap = rng.below(logn - 2) if k % 4 else rng.below(logn + 1)
@@ -378,8 +417,6 @@ def generate_pack(ctx, rng):
         for lb in range(0, logn):
             cnt = n >> lb
             subs = subsets_of(cnt) if cnt <= 8 else []
-            if quick and len(subs) > 24:
-                subs = [subs[rng.below(len(subs))] for _ in range(24)] + [subs[-1], subs[0]]
             for sub in subs:
                 cases.append(pack_shape(rng, "packer", n, sub, lb))
     for k in range(8 if quick else 120):
@@ -608,6 +645,72 @@ def pack_expected_and_bound(c, ans):
     return pout, exp, D, nops * unit, list(range(n)), worst
 
 
+def ggsw_oracle(c, ans):
+    """every cell (row, col) of the resulting GGSW must encrypt m2' * sigma_col * 2^(-(row+1) dsize b) under the target key
+    (m2' = m2 or its Galois image; sigma_0 = 1, sigma_col = s_{col-1}) within: l1(sigma_col) * (input error + key-switch bound)
+    + gadget bound of the tensor key; the tensor key itself must encrypt the products s_i s_j."""
+    n, op, rank = c["n"], c["op"], c["rin"]
+    if ans["res"].startswith("panic:"):
+        return None
+    b, bk, ds, dsk = c["bin"], c["bkey"], c["adsize"], c["dsize"]
+    sk_in = [p_poly(x) for x in ans["skin"].split(";")]
+    sk_out = [p_poly(x) for x in ans["skout"].split(";")]
+    m2 = p_poly(ans["m2"])
+    cols = rank + 1
+    a_cells = [p_ct(x) for x in ans["a"].split("/")]
+    r_cells = [p_ct(x) for x in ans["res"].split("/")]
+    (pk, krows) = p_keys(ans["keys"])[0]
+    tsk = [[p_ct(x) for x in g.split("/")] for g in ans["tsk"].split("@")]
+    skey = ceil_div(c["kkey"], bk)
+    so = len(r_cells[0][0])
+    sa = len(a_cells[0][0])
+    D = max(b * so, b * sa, bk * skey) + 8
+    is_auto = "auto" in op
+    g = pk if is_auto else 1
+    m2p = aut(m2, g) if is_auto else m2
+    tgt_ks = [aut(s_, inv_mod(g, 2 * n)) for s_ in sk_out] if is_auto else sk_out
+    try:
+        cks = dict(c, op="auto" if is_auto else "ks")
+        worst_k, _ = key_errors(cks, g, krows, sk_in, sk_out)
+        # tensor key i, row r, input column j encrypts s_i * s_j
+        worst_t = 0
+        for i, rows in enumerate(tsk):
+            prods = [negmul(sk_out[i], sj) for sj in sk_out]
+            e, _ = key_errors(dict(c, op="ks"), 1, rows, prods, sk_out)
+            worst_t = max(worst_t, e)
+    except OracleFail as e:
+        return f"oracle: {e}"
+    eb = bk * skey
+    # input error of the column-0 cells
+    e_in = 0
+    for row in range(len(a_cells) // cols):
+        ph, bits = phase_num(a_cells[row * cols], sk_in, b, n)
+        sh = bits - (row + 1) * ds * b
+        want = [x << sh for x in m2] if sh >= 0 else [0] * n
+        e_in = max(e_in, max(abs(centered(x - y, bits)) for x, y in zip(ph, want)) << (D - bits))
+    u_ks = ks_bound(dict(cks, rout=rank), D, worst_k, eb, sk_in, tgt_ks, b * sa)
+    b0 = e_in + u_ks
+    for q, cell in enumerate(r_cells):
+        row, col = q // cols, q % cols
+        sigma = ([1] + [0] * (n - 1)) if col == 0 else sk_out[col - 1]
+        want = negmul(m2p, sigma)
+        ph, bits = phase_num(cell, sk_out, b, n)
+        sh = D - (row + 1) * ds * b
+        ref = [w << sh for w in want] if sh >= 0 else [0] * n
+        got = rescale(ph, bits, D)
+        dev = max(abs(centered(x - y, D)) for x, y in zip(got, ref))
+        if col == 0:
+            bnd = b0
+        else:
+            prods = [negmul(sk_out[col - 1], sj) for sj in sk_out]
+            bnd = sum(abs(x) for x in sk_out[col - 1]) * b0 + ks_bound(dict(c, op="ks", bout=b, kout=b * so, rout=rank), D, worst_t, eb, prods, sk_out, b * so)
+        c["_dev_bits"] = (dev.bit_length() - D) if dev else None
+        c["_bound_bits"] = bnd.bit_length() - D
+        if dev > bnd:
+            return f"GGSW cell (row {row}, col {col}) deviates by 2^{dev.bit_length() - D} > bound 2^{bnd.bit_length() - D}"
+    return None
+
+
 def s_ct(cols):
     return ";".join("|".join(",".join(str(x) for x in l) for l in col) for col in cols)
 
@@ -665,6 +768,8 @@ def oracle(c, ans):
     """None if the implementation's own output satisfies the property, else a description"""
     if c["op"] == "extract" or ans["res"].startswith("panic:"):
         return None
+    if c["op"] in GGSW:
+        return ggsw_oracle(c, ans)
     if c["op"] in MAT:
         return mat_oracle(c, ans)
     try:
@@ -687,6 +792,9 @@ def class_key(c):
     rel = lambda x, y: "=" if x == y else ("<" if x < y else ">")
     a_size = ceil_div(ceil_div(c["kin"], c["bin"]) * c["bin"], c["bkey"])
     needed = ceil_div(a_size, c["dsize"])
+    if c["op"] in GGSW:
+        return (c["op"], c["n"], c["rin"], c["dsize"], c["adsize"], c["adnum"], c["rdnum"], rel(c["bin"], c["bkey"]), c["bkey"] > 17,
+                rel(c["kout"], c["kin"]), c["cls"])
     if c["op"] in MAT:
         return (c["op"], c["n"], c["rin"], c["rout"], c["r0"], c["dsize"], c["adsize"], c["adnum"], c["rdnum"], rel(c["bin"], c["bkey"]),
                 c["bkey"] > 17, rel(c["kout"], c["kin"]))
@@ -715,6 +823,7 @@ def run(ctx):
     if drv is None:
         broken.append("model driver does not build: " + getattr(ctx, "driver_error", "")[-400:])
     found = None
+    dnum_panics = []
     stale = []
     hist = {}
     if binp and drv:
@@ -764,6 +873,8 @@ def run(ctx):
                 broken.append(f"implementation did not complete: case {ci} {be} {a['status']} {harness_line(0, c, be, 0)}")
                 continue
             clean[(ci, be)] = a["res"]
+            if c["op"] == "ggsw_ks" and c["rdnum"] < c["adnum"] and a["res"].startswith("panic:"):
+                dnum_panics.append((c, be, a["res"]))
             mi = mkey[(ci, big, a["keys"], a["a"])]
             mt = mout[mi].split()
             mres = mt[2] if len(mt) > 2 and mt[1] == "ok" else (mt[1] if len(mt) > 1 else "?")
@@ -820,7 +931,7 @@ def run(ctx):
             if c["op"] in PACK:
                 bump(f"{c['op']}: N={c['n']} lgap={c['lgap']} slots={len(c['slots'])}")
                 continue
-            if c["op"] in MAT:
+            if c["op"] in MAT or c["op"] in GGSW:
                 bump(f"{c['op']}: dsize={c['dsize']}")
                 continue
             ck = class_key(c)
@@ -843,6 +954,11 @@ def run(ctx):
         ctx.violation("glwe_automorphism_{add,sub,sub_negate}{,_assign} read the un-zeroed res_dft scratch buffer when dsize >= 3",
                       {"case": harness_line(0, c, be, 1), "clean_case": harness_line(0, c, be, 0), "count": len(stale),
                        "rerun": "printf '<case>\\n' | harness/target/release/pvh ks   (dirty=1 vs dirty=0)"}, True, key=STALE_KEY)
+    if dnum_panics:
+        c, be, r = dnum_panics[0]
+        ctx.violation("ggsw_keyswitch panics for res.dnum < a.dnum although its entry assertion admits it (loops over a.dnum rows of res)",
+                      {"case": harness_line(0, c, be, 0), "observed": r, "expected": "a GGSW with res.dnum rows (as ggsw_automorphism gives)",
+                       "count": len(dnum_panics)}, True, key=GGSW_DNUM_KEY)
     if broken:
         ctx.log("broken:", *broken[:6])
         ctx.violation("C03 obligation, correspondence or phase bound no longer checks",
